@@ -583,6 +583,50 @@ theorem mem_pdusOf {evs : List (Nat × Ev)} {p : Pdu} (h : ∃ x ∈ evs, x.2 = 
       simp [pdusOf]
     · exact List.mem_append_right _ (ih ⟨x, hx, hp⟩)
 
+/-- the closing argument: a receiver that holds the Metadata, an EOF and every byte is not collecting -/
+theorem calm_done {st : Send.Static} {fs0 : Fs.FS} {t0 : Nat} {D : List Pdu} {r : Recv.State}
+    (hc : Calm st fs0 t0 D r) (hw : Recv.Waiting r)
+    (hmeta : ∃ p ∈ D, ∃ m, p.payload = .metadata m) (heof : ∃ p ∈ D, ∃ e, p.payload = .eof e)
+    (hcov : ∀ y, y < st.file.length → ∃ p ∈ D, ∃ off d, p.payload = .fileData off d ∧ off ≤ y ∧ y < off + d.length) :
+    r.recvState = .Finished ∧ r.condition = .NoError ∧ r.delivery = .Complete ∧ r.fileStatus = .Retained := by
+  have hnr : r.recvState ≠ .ReceiveData := by
+    intro hr
+    have hmd := hc.prog.mdat hr hmeta
+    have hfs := hc.prog.eof hr heof
+    have hcomp : Seg.isComplete r.segs st.file.length = true := by
+      rw [Seg.isComplete_iff _ _ hc.link.inv]
+      intro y hy
+      obtain ⟨p, hp, off, d, q2, q3, q4⟩ := hcov y hy
+      exact hc.prog.data hr p hp off d q2 y q3 q4
+    have := hw (by rw [hc.prog.mode]) hr hmd (by simp [Recv.eofReceived, hfs])
+    obtain ⟨m, hmm⟩ := Option.isSome_iff_exists.mp hmd
+    simp [Recv.hasNaks, hmm, hfs, hcomp] at this
+  have hfin : r.recvState = .Finished := by
+    cases hrs : r.recvState with
+    | ReceiveData => exact absurd hrs hnr
+    | Cancelled => exact absurd hrs hc.prog.nc
+    | Finished => rfl
+  exact ⟨hfin, hc.prog.fin hfin⟩
+
+theorem calm_new (st : Send.Static) (cfg : Recv.Config) (fs : Fs.FS) (t0 : Nat) (hm : cfg.mode = .Acknowledged)
+    (hmax : 0 < cfg.max) (htn : 0 < cfg.tn) : Calm st fs t0 [] (Recv.new cfg fs t0) := by
+  refine ⟨⟨hm, ⟨rfl, hmax, ?_, rfl⟩, (by intro hh; cases hh), fun _ => ⟨rfl, rfl, rfl⟩, ?_, ?_, ?_, ?_, ?_⟩,
+    C01_init_good st.file cfg fs t0, ?_⟩
+  · show 0 < cfg.tn * 1000000000
+    omega
+  · intro _ p hp; cases hp
+  · intro _ ⟨p, hp, _⟩; cases hp
+  · intro _ ⟨p, hp, _⟩; cases hp
+  · intro m hmm; cases hmm
+  · intro hr; cases hr
+  · refine ⟨?_, ?_, ⟨?_, List.Pairwise.nil⟩, ?_, ?_, ?_⟩
+    · intro v hv; cases hv
+    · intro m hmm; cases hmm
+    · intro sg hsg; cases hsg
+    · intro sg hsg; cases hsg
+    · intro i hi; cases hi
+    · intro hh; cases hh
+
 /-- **C02 (everything delivered means done).**  An acknowledged receiver and a sender transferring
 `st.file` that was not cancelled.  Take any history - any order, any duplicates, any interleaving
 with transmission opportunities, prompts and report requests - in which no timer expires and the
@@ -603,47 +647,17 @@ theorem C02_recv_completes (st : Send.Static) (cfg : Recv.Config) (fs : Fs.FS) (
     (recvRun (Recv.new cfg fs t0) evs).1.condition = .NoError ∧
     (recvRun (Recv.new cfg fs t0) evs).1.delivery = .Complete ∧
     (recvRun (Recv.new cfg fs t0) evs).1.fileStatus = .Retained := by
-  have h0 : Calm st fs t0 [] (Recv.new cfg fs t0) := by
-    refine ⟨⟨hm, ⟨rfl, hmax, ?_, rfl⟩, (by intro hh; cases hh), fun _ => ⟨rfl, rfl, rfl⟩, ?_, ?_, ?_, ?_, ?_⟩,
-      C01_init_good st.file cfg fs t0, ?_⟩
-    · show 0 < cfg.tn * 1000000000
-      omega
-    · intro _ p hp; cases hp
-    · intro _ ⟨p, hp, _⟩; cases hp
-    · intro _ ⟨p, hp, _⟩; cases hp
-    · intro m hmm; cases hmm
-    · intro hr; cases hr
-    · refine ⟨?_, ?_, ⟨?_, List.Pairwise.nil⟩, ?_, ?_, ?_⟩
-      · intro v hv; cases hv
-      · intro m hmm; cases hmm
-      · intro sg hsg; cases hsg
-      · intro sg hsg; cases hsg
-      · intro i hi; cases hi
-      · intro hh; cases hh
-  have hc := calm_run env evs [] _ h0 hev
+  have hc := calm_run env evs [] _ (calm_new st cfg fs t0 hm hmax htn) hev
   rw [List.nil_append] at hc
   have hw := Recv.C02_never_waits_complete cfg fs t0 evs
-  generalize (recvRun (Recv.new cfg fs t0) evs).1 = r at hc hw
-  have hnr : r.recvState ≠ .ReceiveData := by
-    intro hr
-    obtain ⟨x1, hx1, p1, m1, e1, e2⟩ := hmeta
-    obtain ⟨x2, hx2, p2, ee, e3, e4⟩ := heof
-    have hmd := hc.prog.mdat hr ⟨p1, mem_pdusOf ⟨x1, hx1, e1⟩, m1, e2⟩
-    have hfs := hc.prog.eof hr ⟨p2, mem_pdusOf ⟨x2, hx2, e3⟩, ee, e4⟩
-    have hcomp : Seg.isComplete r.segs st.file.length = true := by
-      rw [Seg.isComplete_iff _ _ hc.link.inv]
-      intro y hy
-      obtain ⟨x, hx, p, off, d, q1, q2, q3, q4⟩ := hcov y hy
-      exact hc.prog.data hr p (mem_pdusOf ⟨x, hx, q1⟩) off d q2 y q3 q4
-    have := hw (by rw [hc.prog.mode]) hr hmd (by simp [Recv.eofReceived, hfs])
-    obtain ⟨m, hmm⟩ := Option.isSome_iff_exists.mp hmd
-    simp [Recv.hasNaks, hmm, hfs, hcomp] at this
-  have hfin : r.recvState = .Finished := by
-    cases hrs : r.recvState with
-    | ReceiveData => exact absurd hrs hnr
-    | Cancelled => exact absurd hrs hc.prog.nc
-    | Finished => rfl
-  exact ⟨hfin, hc.prog.fin hfin⟩
+  refine calm_done hc hw ?_ ?_ ?_
+  · obtain ⟨x1, hx1, p1, m1, e1, e2⟩ := hmeta
+    exact ⟨p1, mem_pdusOf ⟨x1, hx1, e1⟩, m1, e2⟩
+  · obtain ⟨x2, hx2, p2, ee, e3, e4⟩ := heof
+    exact ⟨p2, mem_pdusOf ⟨x2, hx2, e3⟩, ee, e4⟩
+  · intro y hy
+    obtain ⟨x, hx, p, off, d, q1, q2, q3, q4⟩ := hcov y hy
+    exact ⟨p, mem_pdusOf ⟨x, hx, q1⟩, off, d, q2, q3, q4⟩
 
 end Cfdp.Loop
 
